@@ -139,7 +139,7 @@ type memcached struct {
 }
 
 func newMemcached() *memcached {
-	l, err := net.Listen("tcp", "127.0.0.1:0")
+	l, err := listenRetry()
 	if err != nil {
 		panic(err)
 	}
@@ -229,7 +229,12 @@ func replayOne(r *res.Result, w *world, b *beh, n int) {
 	var servers []*httptest.Server
 	for i, bh := range b.Urls {
 		t := &tsa{id: w.tsas[i], b: bh, order: &order, omu: &omu, idx: i + 1}
-		s := httptest.NewServer(t)
+		s := httptest.NewUnstartedServer(t)
+		if l, err := listenRetry(); err == nil {
+			s.Listener.Close()
+			s.Listener = l
+		}
+		s.Start()
 		servers = append(servers, s)
 		conf.URLs = append(conf.URLs, s.URL)
 	}
@@ -468,4 +473,18 @@ func VerifyGrid(path string) {
 	wg.Wait()
 	r.Extra["behaviours_read"] = n
 	r.Emit()
+}
+
+// listenRetry: thousands of short-lived listeners can exhaust the ephemeral port range for a moment (TIME_WAIT): wait
+// and try again instead of giving up on the whole run
+func listenRetry() (net.Listener, error) {
+	var l net.Listener
+	var err error
+	for i := 0; i < 100; i++ {
+		if l, err = net.Listen("tcp", "127.0.0.1:0"); err == nil {
+			return l, nil
+		}
+		time.Sleep(100 * time.Millisecond)
+	}
+	return nil, err
 }
